@@ -390,6 +390,16 @@ func touched(rules []model.IgRule, p string) bool {
 // what the rules exclude (files and links strictly; directories only when no rule touches them).
 func comparePkgDir(sc *bw.Scenario, w *world, pi int, pdir string, vi int, out *simkit.Outcome) {
 	got := uwrun.ListTree(pdir)
+	// Packages with equal file paths and contents share one directory (C13); what they do
+	// not share - empty directories, which the content hash does not see - comes from
+	// whichever was placed first. Directory presence is therefore only judged for a
+	// package without such a twin.
+	hasTwin := false
+	for qi := range sc.Pkgs {
+		if qi != pi && w.content[qi] == w.content[pi] {
+			hasTwin = true
+		}
+	}
 	raw := w.raw[pi]
 	rules := w.rules[pi]
 	hasRules := sc.Pkgs[pi].Rules != nil
@@ -414,7 +424,7 @@ func comparePkgDir(sc *bw.Scenario, w *world, pi int, pdir string, vi int, out *
 			if touched(rules, p) {
 				continue
 			}
-			if !present || g.Kind != 'd' {
+			if (!present || g.Kind != 'd') && !hasTwin {
 				out.Violate("C08", "content", "dir-missing", fmt.Sprintf("variant %d: package %d directory %s is missing from the bundle", vi, pi, p))
 			}
 			continue
@@ -458,6 +468,9 @@ func comparePkgDir(sc *bw.Scenario, w *world, pi int, pdir string, vi int, out *
 	}
 	sort.Strings(extra)
 	for _, p := range extra {
+		if hasTwin && got[p].Kind == 'd' {
+			continue
+		}
 		out.Violate("C08", "content", "extra", fmt.Sprintf("variant %d: package %d: %s is in the bundle but was not fetched", vi, pi, p))
 	}
 }
